@@ -21,7 +21,7 @@ func init() {
 		ID: "C14", Level: "model_checking",
 		Rule:   "ELX with a conforming sender model (sends a DATA frame only when its ledger allows, blocks exactly when a window is exhausted): upload patterns = leak classes {accepted uploads on 1-3 interleaved streams, bodies over MaxRequestBodySize (stream error), content-length mismatch, peer reset mid-body, refused streams with DATA in flight, DATA in flight after the server's reset, padded frames incl. padding-only frames, empty DATA frames} x chunk sizes {1, 1000, 16384} x padding {none, 1, 255}; each pattern is repeated until the volume sent exceeds twice the connection window the receiver advertised (deterministic; the classes are enumerated, the volume is not). Client half: the mirrored download patterns against the real client. Oracle: every WINDOW_UPDATE increment > 0, no window above 2^31-1, and at no quiescent state is the sender blocked on a window. Non-trivial: every pattern (volume > connection window); distinct by pattern.",
 		Assume: []string{"the sender model stops sending on a stream once it has seen RST_STREAM for it, after flushing the frames already 'in flight'", "canonical internal schedule between events"},
-		Run:    runC14, Replay: replayC14, QuickS: 120, ThoroughS: 600,
+		Run:    runC14, Replay: replayC14, Policies: 1, QuickS: 120, ThoroughS: 600,
 	})
 }
 
